@@ -1,6 +1,7 @@
 From Coq Require Extraction ExtrOcamlBasic.
-From Rpgp Require Import Base.Octets Base.Res Frame.Framing Wire.Fmt Wire.Packets Wire.Wire.
+From Rpgp Require Import Base.Octets Base.Res Frame.Framing Wire.Fmt Wire.Packets Wire.Wire Wire.KeyFlagsObj.
 Extraction Language OCaml.
 Separate Extraction Byte.to_N Byte.of_N
   Fmt.enc Fmt.dec Fmt.gen Packets.body_fmt Packets.tags Wire.packet Wire.parse_body Wire.announced_len
-  Framing.deframe Framing.enc_header_new.
+  Framing.deframe Framing.enc_header_new
+  KeyFlagsObj.kf_default KeyFlagsObj.kf_parse KeyFlagsObj.kf_set KeyFlagsObj.kf_ser KeyFlagsObj.kf_write_len.
